@@ -273,6 +273,18 @@ Definition ingest (fok : string -> bool) (tab : deftab) (dropw : bool) (lines : 
       end
   end.
 
+(* the same with the other record classes' behaviour explicit (oracle [oerr]) *)
+Definition ingestG (fok oerr : string -> bool) (tab : deftab) (dropw : bool) (lines : list string)
+  : result :=
+  match read_pdbG fok oerr lines with
+  | None => Raised "ValueError"
+  | Some (recs, _) =>
+      match group tab (if dropw then drop_water recs else recs) with
+      | None => Raised "Exception"
+      | Some rs => Done rs
+      end
+  end.
+
 Definition readlines (text : string) : list string := let (h, t) := rl text in cons_ne h t.
 
 (* ---- printing for the correspondence harness ------------------------------ *)
